@@ -14,7 +14,9 @@ oracle:  independent of the model — comparator verdict == `eqmod_ref` (referen
 from __future__ import annotations
 
 import copy
+import hashlib
 import json
+import random
 from pathlib import Path
 
 import common
@@ -97,10 +99,23 @@ def shrink_pair(t, a, fails):
     return t, a
 
 
+CHUNK = 20000
+
+
 def run_unit(ck: Check, drv: LeanDriver, ftrun, r, n: int):
     if not hasattr(ftrun, "_validate_match"):
         ck.notes.append("run._validate_match not found: comparator unit differential skipped (end to end only)")
         return
+    done = 0
+    while done < n:
+        step = min(CHUNK, n - done)
+        _run_unit_chunk(ck, drv, ftrun, r, step)
+        done += step
+        if len(ck.violations) > 2000 or len(ck.disagreements) > 2000:
+            break
+
+
+def _run_unit_chunk(ck: Check, drv: LeanDriver, ftrun, r, n: int):
     cases = []
     for _ in range(n):
         kind, t, a = g.gen_pair(r)
@@ -122,7 +137,7 @@ def run_unit(ck: Check, drv: LeanDriver, ftrun, r, n: int):
         ck.count(f"unit:{kind}")
         ck.count(f"unit:truth={'equal' if want else 'different'}")
         if kind != "truth":
-            ck.nontriv(json.dumps(["m", to_wire(t), to_wire(a)]))
+            ck.nontriv(hashlib.sha1(json.dumps(["m", to_wire(t), to_wire(a)]).encode()).hexdigest()[:16])
         ck.sample({"type": "match", "kind": kind, "t": t, "a": a, "equal": want})
         bad = match_oracle(ftrun, t, a)
         if bad:
@@ -232,12 +247,22 @@ def gen_expected_outcome(r, result, like=None):
 
 
 def run_unit_verdicts(ck: Check, drv: LeanDriver, ftrun, r, n: int):
-    from koreo import result
-
     need = ("_validate_outcome_match", "_validate_return_match", "_validate_resource_match")
     if not all(hasattr(ftrun, f) for f in need):
         ck.notes.append("verdict functions not found by name: verdict unit differential skipped (end to end only)")
         return
+    done = 0
+    while done < n:
+        step = min(CHUNK, n - done)
+        _run_unit_verdicts_chunk(ck, drv, ftrun, r, step)
+        done += step
+        if len(ck.violations) > 2000 or len(ck.disagreements) > 2000:
+            break
+
+
+def _run_unit_verdicts_chunk(ck: Check, drv: LeanDriver, ftrun, r, n: int):
+    from koreo import result
+
     cases = []
     for _ in range(n):
         which = r.choice(["outcome", "outcome", "return", "resource"])
@@ -362,9 +387,12 @@ def build_assertions(r, kind: str, out, eff: dict, index_free: bool = False, cur
         msg = out.message or ""
         if index_free and "testCases[" in msg:
             msg = ""
-        i = r.randrange(len(msg) + 1)
-        j = r.randrange(i, len(msg) + 1)
-        sub = _case_variation(r, msg[i:j]) if r.random() < 0.8 else ""
+        # koreo's messages list differences in set order (hash-randomised per process): keep the main
+        # random stream independent of the message text
+        rr = random.Random(r.getrandbits(32))
+        i = rr.randrange(len(msg) + 1)
+        j = rr.randrange(i, len(msg) + 1)
+        sub = _case_variation(rr, msg[i:j]) if r.random() < 0.8 else ""
         body = {"message": sub}
         if cls == "retry":
             body["delay"] = r.choice([0, out.delay])
@@ -563,6 +591,16 @@ def scenario_case(sc, frag, must):
 
 
 def run_e2e(ck: Check, drv: LeanDriver, r, n: int):
+    done = 0
+    while done < n:
+        step = min(500, n - done)
+        _run_e2e_chunk(ck, drv, r, step)
+        done += step
+        if len(ck.violations) > 2000 or len(ck.disagreements) > 2000:
+            break
+
+
+def _run_e2e_chunk(ck: Check, drv: LeanDriver, r, n: int):
     pending = []   # (scenario, record) for the model
     for _ in range(n):
         sc = gen_scenario(r)
